@@ -138,7 +138,8 @@ fn check_table_against_spec(hc: &HuffmanCode, t: &BuiltHuffmanTable) {
     }
     assert!(hc.encoded_len() == 1 + 16 + (n - 1), "[C17] DHT segment share (T.81 B.2.4.2): Tc/Th + 16 counts + the real symbols");
     kani::cover!(sz == 16);
-    kani::cover!(sz == 1 && code == 1);
+    kani::cover!(sz == 1 && code == 0);
+    kani::cover!(n < 3 || (sz == 2 && code == 1));
     kani::cover!(sz == 0);
 }
 
